@@ -924,6 +924,38 @@ pub fn run_c10(ctx: &Ctx) -> Result<(), String> {
             }
         }
     }
+    // won endgames: tiny trees, mate scores from the fifth iteration on, dozens of iterations
+    // within the 40 ms before the stop arrives (whatever an iteration does besides searching -
+    // collecting the line, reporting - runs many times with the flag still up)
+    let won = ["3k4/8/8/3K4/8/8/8/R7 w - - 0 1", "8/8/8/8/8/k7/2Q5/2K5 w - - 0 1", "8/8/8/4k3/8/8/1R6/K6R b - - 0 1"];
+    for k in 0..won.len() {
+        let fen = won[(k + ctx.seed as usize) % won.len()];
+        let Ok(p) = Pos::from_fen(fen) else { continue };
+        let g1 = Game {
+            start_fen: fen.to_string(),
+            is_startpos: false,
+            moves: vec![],
+            positions: vec![p],
+        };
+        let g2 = random_game(&mut rng, &seeds, 16, true);
+        let keep = ["stop-d-mid", "stop-c-iter1", "position-and-isready-during-search", "ucinewgame-during-search", "stop-storm"];
+        for mut sc in schedules(&g1, &g2) {
+            let kind = sc.name.split('[').next().unwrap_or("").to_string();
+            if keep.contains(&kind.as_str()) && !sc.name.contains("depth 3") && !sc.name.contains("nodes 400]") {
+                sc.name = sc.name.replacen('[', "[won-endgame ", 1);
+                if kind == "stop-d-mid" {
+                    // the stop comes late: a dozen iterations have been completed by then
+                    for st in &mut sc.steps {
+                        if let Step::Sleep(ms) = st {
+                            *ms = 600;
+                        }
+                    }
+                }
+                all.push(sc);
+                out::count("C10.forced_schedules_on_won_endgames", 1);
+            }
+        }
+    }
     out::count("C10.forced_schedules", all.len() as u64);
     let next = std::sync::atomic::AtomicUsize::new(0);
     let n_stress = if thorough { 1_500 } else { 160 };
